@@ -106,4 +106,360 @@ theorem ordLoop_hit {σ : Type} (n : Nat) (idx : Nat → Option Nat)
       simp only [ordLoop, h1, ↓reduceIte, hk, h2, absFold]
       exact ih f (q + 1) _ r (by omega) (by omega)
 
+/-! ### Interest: moving the generic loop from element to element -/
+
+/-- `tlvLoop_step` with the header reader independent of the fuel -/
+theorem tlvLoop_step' (R : ReaderSpecs) {σ : Type} (body : σ → Nat → Nat → Nat → Rd → Res (σ × Rd)) (st : σ)
+    (r : Rd) (buf : Bytes) (p ty l : Nat) (rest : Bytes) (h : At r buf p)
+    (hb : buf.drop p = encTL ty ++ (encTL l ++ rest)) (hty : ty < 2 ^ 64) (hl : l < 2 ^ 62) :
+    ∃ r2, At r2 buf (p + tlLen ty + tlLen l) ∧ r2.Live ∧ buf.drop (p + tlLen ty + tlLen l) = rest ∧
+      p + tlLen ty + tlLen l ≤ buf.length ∧
+      ∀ fuel, tlvLoop body (fuel + 1) st r = (body st ty l p r2 >>= fun x => tlvLoop body fuel x.1 x.2) := by
+  obtain ⟨r1, e1, a1, _, d1⟩ := readTL_at R r buf p ty _ h hb hty
+  obtain ⟨r2, e2, a2, l2, d2⟩ := readTL_at R r1 buf _ l _ a1 d1 (by omega)
+  refine ⟨r2, a2, l2, d2, a2.2.2, ?_⟩
+  intro fuel
+  have hlt : ¬ (p ≥ buf.length) := by
+    have h1 := (drop_append_len h.2.2 hb).1
+    rw [encTL_length] at h1
+    have := tlLen_pos ty
+    omega
+  have hoom : lenOutOfModel l = false := by simp [lenOutOfModel]; omega
+  simp only [tlvLoop, R.pos_eq r buf p h, R.length_eq r buf p h, hlt, ↓reduceIte, e1, Res.bind_ok, e2, hoom]
+  rfl
+
+/-- from reader `r` at `p` with loop state `s`, the Interest loop arrives at reader `r'` at `p'`
+    with loop state `s'` (for every sufficient fuel) -/
+def Reach (buf : Bytes) (p : Nat) (s : InterestSt × Nat) (r : Rd) (p' : Nat) (s' : InterestSt × Nat) (r' : Rd) : Prop :=
+  ∀ fuel, buf.length - p < fuel → ∃ fuel', buf.length - p' < fuel' ∧
+    tlvLoop interestBody fuel s r = tlvLoop interestBody fuel' s' r'
+
+theorem Reach.refl (buf : Bytes) (p : Nat) (s : InterestSt × Nat) (r : Rd) : Reach buf p s r p s r :=
+  fun fuel hf => ⟨fuel, hf, rfl⟩
+
+theorem Reach.trans {buf : Bytes} {p1 p2 p3 : Nat} {s1 s2 s3 : InterestSt × Nat} {r1 r2 r3 : Rd}
+    (a : Reach buf p1 s1 r1 p2 s2 r2) (b : Reach buf p2 s2 r2 p3 s3 r3) : Reach buf p1 s1 r1 p3 s3 r3 := by
+  intro fuel hf
+  obtain ⟨f2, h2, e2⟩ := a fuel hf
+  obtain ⟨f3, h3, e3⟩ := b f2 h2
+  exact ⟨f3, h3, e2.trans e3⟩
+
+theorem interestBody_hit (typ l sp k q : Nat) (st : InterestSt) (r : Rd) (hk : interestIdx typ = some k)
+    (hq : q ≤ k) (hk15 : k ≤ 15) :
+    interestBody (st, q) typ l sp r
+      = (interestHandle k (absFold interestAbsent sp r (k - q) q st) l sp r >>= fun x => pure ((x.1, k + 1), x.2)) := by
+  unfold interestBody
+  exact ordLoop_hit 15 interestIdx interestHandle interestAbsent typ l sp k hk hk15 (k - q) 17 q st r
+    (by omega) (by omega)
+
+/-- one known element: TL header, absent-actions of the skipped slots, handler -/
+theorem step_reach (R : ReaderSpecs) {st : InterestSt} {q : Nat} {r : Rd} {buf : Bytes} {p ty l k : Nat} {rest : Bytes}
+    (h : At r buf p) (hb : buf.drop p = encTL ty ++ (encTL l ++ rest)) (hty : ty < 2 ^ 64) (hl : l < 2 ^ 62)
+    (hk : interestIdx ty = some k) (hq : q ≤ k) (hk15 : k ≤ 15) :
+    ∃ r2, At r2 buf (p + tlLen ty + tlLen l) ∧ r2.Live ∧ buf.drop (p + tlLen ty + tlLen l) = rest ∧
+      ∀ (st' : InterestSt) (r3 : Rd) (p3 : Nat),
+        interestHandle k (absFold interestAbsent p r2 (k - q) q st) l p r2 = .ok (st', r3) →
+        p3 ≤ buf.length → p + tlLen ty + tlLen l ≤ p3 → Reach buf p (st, q) r p3 (st', k + 1) r3 := by
+  obtain ⟨r2, a2, l2, d2, _, e2⟩ := tlvLoop_step' R interestBody (st, q) r buf p ty l rest h hb hty hl
+  refine ⟨r2, a2, l2, d2, ?_⟩
+  intro st' r3 p3 hh hle hge fuel hf
+  have := tlLen_pos ty
+  cases fuel with
+  | zero => omega
+  | succ f =>
+    refine ⟨f, by omega, ?_⟩
+    rw [e2 f, interestBody_hit ty l p k q st r2 hk hq hk15, Res.bind_assoc', hh]
+    rfl
+
+/-! ### absent-actions of the Interest model -/
+
+theorem absFold_head (sp : Nat) (r : Rd) : ∀ (c q : Nat) (st : InterestSt), q + c ≤ 9 →
+    absFold interestAbsent sp r c q st = st := by
+  intro c
+  induction c with
+  | zero => intro q st _; rfl
+  | succ c ih =>
+    intro q st hq
+    have h1 : q ≠ 9 := by omega
+    have h2 : q ≠ 10 := by omega
+    have h3 : q ≠ 14 := by omega
+    simp only [absFold, interestAbsent, h1, h2, h3, ↓reduceIte]
+    exact ih (q + 1) st (by omega)
+
+theorem absFold_v (sp : Nat) (r : Rd) : ∀ (c q : Nat) (st : InterestSt),
+    (absFold interestAbsent sp r c q st).v = st.v := by
+  intro c
+  induction c with
+  | zero => intro q st; rfl
+  | succ c ih =>
+    intro q st
+    simp only [absFold]; rw [ih]; unfold interestAbsent
+    repeat' split
+    all_goals rfl
+
+theorem absFold_sigCovered (sp : Nat) (r : Rd) : ∀ (c q : Nat) (st : InterestSt),
+    (absFold interestAbsent sp r c q st).sigCovered = st.sigCovered := by
+  intro c
+  induction c with
+  | zero => intro q st; rfl
+  | succ c ih =>
+    intro q st
+    simp only [absFold]; rw [ih]; unfold interestAbsent
+    repeat' split
+    all_goals rfl
+
+/-- the first element after the offset markers (slot 11, 12 or 13) coming from the head part -/
+theorem absFold_markers (sp : Nat) (r : Rd) (q k : Nat) (st : InterestSt) (hq : q ≤ 9) (hk : 11 ≤ k) (hk2 : k ≤ 13) :
+    absFold interestAbsent sp r (k - q) q st = { st with sigCoverStart := sp, digestCoverStart := sp } := by
+  rw [show k - q = (9 - q) + (k - 9) by omega, absFold_add, absFold_head sp r (9 - q) q st (by omega),
+    show q + (9 - q) = 9 by omega]
+  have : k = 11 ∨ k = 12 ∨ k = 13 := by omega
+  rcases this with rfl | rfl | rfl <;> simp [absFold, interestAbsent]
+
+theorem eta_cbp (st : InterestSt) (h : st.v.cbp = false) : { st with v := { st.v with cbp := false } } = st := by
+  obtain ⟨v, _, _, _, _⟩ := st; obtain ⟨⟩ := v; simp_all
+theorem eta_mbf (st : InterestSt) (h : st.v.mbf = false) : { st with v := { st.v with mbf := false } } = st := by
+  obtain ⟨v, _, _, _, _⟩ := st; obtain ⟨⟩ := v; simp_all
+theorem eta_fh (st : InterestSt) (h : st.v.fh = none) : { st with v := { st.v with fh := none } } = st := by
+  obtain ⟨v, _, _, _, _⟩ := st; obtain ⟨⟩ := v; simp_all
+theorem eta_nonce (st : InterestSt) (h : st.v.nonce = none) : { st with v := { st.v with nonce := none } } = st := by
+  obtain ⟨v, _, _, _, _⟩ := st; obtain ⟨⟩ := v; simp_all
+theorem eta_lt (st : InterestSt) (h : st.v.lt = none) : { st with v := { st.v with lt := none } } = st := by
+  obtain ⟨v, _, _, _, _⟩ := st; obtain ⟨⟩ := v; simp_all
+theorem eta_hl (st : InterestSt) (h : st.v.hl = none) : { st with v := { st.v with hl := none } } = st := by
+  obtain ⟨v, _, _, _, _⟩ := st; obtain ⟨⟩ := v; simp_all
+theorem eta_si (st : InterestSt) (h : st.v.si = none) : { st with v := { st.v with si := none } } = st := by
+  obtain ⟨v, _, _, _, _⟩ := st; obtain ⟨⟩ := v; simp_all
+
+/-! ### small encoder facts -/
+
+theorem encTL_small (x : Nat) (h : x ≤ 0xfc) : encTL x = [x] := by simp [encTL, h]
+theorem tlLen_small (x : Nat) (h : x ≤ 0xfc) : tlLen x = 1 := by simp [tlLen, h]
+
+theorem nameLen_append (a b : Name) : nameLen (a ++ b) = nameLen a + nameLen b := by
+  simp [nameLen, List.map_append, List.sum_append]
+
+theorem encNameInner_append (a b : Name) : encNameInner (a ++ b) = encNameInner a ++ encNameInner b := by
+  simp [encNameInner, List.flatMap_append]
+
+theorem sigEndAux_snoc (c : Component) : ∀ (base : Name) (p cur : Nat),
+    sigEndAux p (base ++ [c]) cur = if c.typ = 2 then p + nameLen base else sigEndAux p base cur := by
+  intro base
+  induction base with
+  | nil => intro p cur; simp [sigEndAux, nameLen]
+  | cons b base ih =>
+    intro p cur
+    simp only [List.cons_append, sigEndAux, ih]
+    split
+    · simp [nameLen]; omega
+    · rfl
+
+theorem flatten_length (c : List Bytes) : c.flatten.length = contentLen c := by
+  simp [contentLen, List.length_flatten]
+
+theorem natLen_le (x : Nat) : natLen x ≤ 8 := by
+  unfold natLen; repeat' split
+  all_goals omega
+
+theorem lt_pow_natLen (x : Nat) (hx : x < 2 ^ 64) : x < 256 ^ natLen x := by
+  unfold natLen; repeat' split
+  all_goals omega
+
+theorem pow_natLen_le (x : Nat) : 256 ^ natLen x ≤ u64 := by
+  unfold natLen u64; repeat' split
+  all_goals omega
+
+/-! ### the Interest elements, one by one -/
+
+section
+variable (R : ReaderSpecs)
+include R
+
+/-- Name (slot 2) -/
+theorem el_name (E : EncSpecs) (fn : Name) (st : InterestSt) {q : Nat} {r : Rd} {buf : Bytes} {p : Nat} {rest : Bytes}
+    (h : At r buf p) (hb : buf.drop p = encNameField 7 fn ++ rest) (hv : NameValid fn)
+    (hlen : nameLen fn < 2 ^ 62) (hq : q ≤ 2) :
+    ∃ r' X, At r' buf (p + (encNameField 7 fn).length) ∧ buf.drop (p + (encNameField 7 fn).length) = rest ∧
+      (∀ base v, fn = base ++ [⟨2, v⟩] → X = encNameInner base) ∧
+      Reach buf p (st, q) r (p + (encNameField 7 fn).length)
+        ({ st with v := { st.v with name := some fn }, sigCovered := st.sigCovered ++ X }, 3) r' := by
+  have hb1 : buf.drop p = encTL 7 ++ (encTL (nameLen fn) ++ (encNameInner fn ++ rest)) := by
+    rw [hb]; simp [encNameField, List.append_assoc]
+  obtain ⟨r2, a2, l2, d2, hstep⟩ := step_reach R (st := st) h hb1 (by omega) hlen (by decide : interestIdx 7 = some 2) hq (by omega)
+  obtain ⟨r3, e3, a3, d3⟩ := readNameField_at R r2 buf _ fn rest a2 d2 (E.nameLen_eq fn) hv hlen
+  have hL : (encNameField 7 fn).length = tlLen 7 + tlLen (nameLen fn) + nameLen fn := by
+    simp [encNameField, encTL_length, E.nameLen_eq]; omega
+  have hpos : p + (encNameField 7 fn).length = p + tlLen 7 + tlLen (nameLen fn) + nameLen fn := by omega
+  rw [hpos]
+  refine ⟨r3, r3.range (p + tlLen 7 + tlLen (nameLen fn))
+    (sigEndAux (p + tlLen 7 + tlLen (nameLen fn)) fn (p + tlLen 7 + tlLen (nameLen fn) + nameLen fn)), a3, d3, ?_, ?_⟩
+  · intro base v hfn
+    subst hfn
+    rw [sigEndAux_snoc]
+    simp only [↓reduceIte]
+    have hle : p + tlLen 7 + tlLen (nameLen (base ++ [⟨2, v⟩])) + nameLen base ≤ buf.length := by
+      have := a3.2.2; rw [nameLen_append] at this; rw [nameLen_append]; omega
+    rw [R.range_eq r3 buf _ _ _ a3 (by omega) hle, d2, encNameInner_append, List.append_assoc]
+    rw [show p + tlLen 7 + tlLen (nameLen (base ++ [⟨2, v⟩])) + nameLen base
+        - (p + tlLen 7 + tlLen (nameLen (base ++ [⟨2, v⟩]))) = (encNameInner base).length by rw [E.nameLen_eq]; omega]
+    simp
+  · apply hstep _ r3 _ _ a3.2.2 (by omega)
+    rw [absFold_head _ _ _ _ _ (by omega)]
+    simp [interestHandle, R.pos_eq r2 _ _ a2, e3]
+
+/-- CanBePrefix (slot 3): the (empty) value is not skipped -/
+theorem el_cbp (b : Bool) (st : InterestSt) {q : Nat} {r : Rd} {buf : Bytes} {p : Nat} {rest : Bytes}
+    (h : At r buf p) (hb : buf.drop p = boolField 33 b ++ rest) (hq : q ≤ 3) (h0 : st.v.cbp = false) :
+    ∃ r' q', q' ≤ 4 ∧ At r' buf (p + (boolField 33 b).length) ∧ buf.drop (p + (boolField 33 b).length) = rest ∧
+      Reach buf p (st, q) r (p + (boolField 33 b).length) ({ st with v := { st.v with cbp := b } }, q') r' := by
+  cases b with
+  | false =>
+    refine ⟨r, q, by omega, by simpa [boolField] using h, by simpa [boolField] using hb, ?_⟩
+    rw [eta_cbp st h0]; simp only [boolField]; exact Reach.refl _ _ _ _
+  | true =>
+    have hb1 : buf.drop p = encTL 33 ++ (encTL 0 ++ rest) := by
+      rw [hb]; simp [boolField, encTL_small]
+    obtain ⟨r2, a2, l2, d2, hstep⟩ := step_reach R (st := st) h hb1 (by omega) (by omega) (by decide : interestIdx 33 = some 3) hq (by omega)
+    have hL : (boolField 33 true).length = tlLen 33 + tlLen 0 := by simp [boolField, encTL_length, tlLen_small]
+    rw [hL, ← Nat.add_assoc]
+    refine ⟨r2, 4, by omega, a2, d2, ?_⟩
+    apply hstep _ r2 _ _ a2.2.2 (by omega)
+    rw [absFold_head _ _ _ _ _ (by omega)]
+    simp [interestHandle]
+
+/-- MustBeFresh (slot 4) -/
+theorem el_mbf (b : Bool) (st : InterestSt) {q : Nat} {r : Rd} {buf : Bytes} {p : Nat} {rest : Bytes}
+    (h : At r buf p) (hb : buf.drop p = boolField 18 b ++ rest) (hq : q ≤ 4) (h0 : st.v.mbf = false) :
+    ∃ r' q', q' ≤ 5 ∧ At r' buf (p + (boolField 18 b).length) ∧ buf.drop (p + (boolField 18 b).length) = rest ∧
+      Reach buf p (st, q) r (p + (boolField 18 b).length) ({ st with v := { st.v with mbf := b } }, q') r' := by
+  cases b with
+  | false =>
+    refine ⟨r, q, by omega, by simpa [boolField] using h, by simpa [boolField] using hb, ?_⟩
+    rw [eta_mbf st h0]; simp only [boolField]; exact Reach.refl _ _ _ _
+  | true =>
+    have hb1 : buf.drop p = encTL 18 ++ (encTL 0 ++ rest) := by
+      rw [hb]; simp [boolField, encTL_small]
+    obtain ⟨r2, a2, l2, d2, hstep⟩ := step_reach R (st := st) h hb1 (by omega) (by omega) (by decide : interestIdx 18 = some 4) hq (by omega)
+    have hL : (boolField 18 true).length = tlLen 18 + tlLen 0 := by simp [boolField, encTL_length, tlLen_small]
+    rw [hL, ← Nat.add_assoc]
+    refine ⟨r2, 5, by omega, a2, d2, ?_⟩
+    apply hstep _ r2 _ _ a2.2.2 (by omega)
+    rw [absFold_head _ _ _ _ _ (by omega)]
+    simp [interestHandle]
+
+/-- ForwardingHint (slot 5) -/
+theorem el_fh (E : EncSpecs) (o : Option (List Name)) (st : InterestSt) {q : Nat} {r : Rd} {buf : Bytes} {p : Nat}
+    {rest X : Bytes} (hX : X = optB o (fun ns => encTL 30 ++ encTL (linksLen ns) ++ encLinks ns))
+    (h : At r buf p) (hb : buf.drop p = X ++ rest)
+    (hv : ∀ ns, o = some ns → ∀ n ∈ ns, NameValid n) (hlen : ∀ ns, o = some ns → linksLen ns < 2 ^ 62)
+    (hq : q ≤ 5) (h0 : st.v.fh = none) :
+    ∃ r' q', q' ≤ 6 ∧ At r' buf (p + X.length) ∧ buf.drop (p + X.length) = rest ∧
+      Reach buf p (st, q) r (p + X.length) ({ st with v := { st.v with fh := o } }, q') r' := by
+  subst hX
+  cases o with
+  | none =>
+    refine ⟨r, q, by omega, by simpa [optB] using h, by simpa [optB] using hb, ?_⟩
+    rw [eta_fh st h0]; simp only [optB]; exact Reach.refl _ _ _ _
+  | some ns =>
+    have hl := hlen ns rfl
+    have hb1 : buf.drop p = encTL 30 ++ (encTL (linksLen ns) ++ (encLinks ns ++ rest)) := by
+      rw [hb]; simp [optB, List.append_assoc]
+    obtain ⟨r2, a2, l2, d2, hstep⟩ := step_reach R (st := st) h hb1 (by omega) hl (by decide : interestIdx 30 = some 5) hq (by omega)
+    obtain ⟨hle, htk, d3⟩ := drop_append_len a2.2.2 d2
+    rw [E.linksLen_eq] at hle htk d3
+    obtain ⟨sub, r3, e3, asub, a3⟩ := R.delegate_ok r2 buf _ (linksLen ns) a2 hle
+    rw [htk] at asub
+    have ep := parseLinks_at R E sub ns asub (hv ns rfl) hl
+    have hL : (optB (some ns) (fun ns => encTL 30 ++ encTL (linksLen ns) ++ encLinks ns)).length
+        = tlLen 30 + tlLen (linksLen ns) + linksLen ns := by
+      simp [optB, encTL_length, E.linksLen_eq]; omega
+    rw [hL, show p + (tlLen 30 + tlLen (linksLen ns) + linksLen ns) = p + tlLen 30 + tlLen (linksLen ns) + linksLen ns by omega]
+    refine ⟨r3, 6, by omega, a3, d3, ?_⟩
+    apply hstep _ r3 _ _ a3.2.2 (by omega)
+    rw [absFold_head _ _ _ _ _ (by omega)]
+    simp [interestHandle, e3, ep]
+
+/-- Nonce (slot 6) -/
+theorem el_nonce (o : Option Nat) (st : InterestSt) {q : Nat} {r : Rd} {buf : Bytes} {p : Nat}
+    {rest : Bytes} (h : At r buf p) (hb : buf.drop p = optB o encNonce ++ rest)
+    (hv : ∀ x, o = some x → x < 2 ^ 32) (hq : q ≤ 6) (h0 : st.v.nonce = none) :
+    ∃ r' q', q' ≤ 7 ∧ At r' buf (p + (optB o encNonce).length) ∧ buf.drop (p + (optB o encNonce).length) = rest ∧
+      Reach buf p (st, q) r (p + (optB o encNonce).length) ({ st with v := { st.v with nonce := o } }, q') r' := by
+  cases o with
+  | none =>
+    refine ⟨r, q, by omega, by simpa [optB] using h, by simpa [optB] using hb, ?_⟩
+    rw [eta_nonce st h0]; simp only [optB]; exact Reach.refl _ _ _ _
+  | some x =>
+    have hx := hv x rfl
+    have hb1 : buf.drop p = encTL 10 ++ (encTL 4 ++ (be 4 x ++ rest)) := by
+      rw [hb]; simp [optB, encNonce, encTL_small]
+    obtain ⟨r2, a2, l2, d2, hstep⟩ := step_reach R (st := st) h hb1 (by omega) (by omega) (by decide : interestIdx 10 = some 6) hq (by omega)
+    obtain ⟨r3, e3, a3, d3⟩ := readNat_at R r2 buf _ 4 x 32 rest a2 d2 (by omega) (by simp [u64])
+    have hL : (optB (some x) encNonce).length = tlLen 10 + tlLen 4 + 4 := by
+      simp [optB, encNonce, tlLen_small]
+    rw [hL, show p + (tlLen 10 + tlLen 4 + 4) = p + tlLen 10 + tlLen 4 + 4 by omega]
+    refine ⟨r3, 7, by omega, a3, d3, ?_⟩
+    apply hstep _ r3 _ _ a3.2.2 (by omega)
+    rw [absFold_head _ _ _ _ _ (by omega)]
+    simp [interestHandle, e3, Nat.mod_eq_of_lt hx]
+
+/-- InterestLifetime (slot 7) -/
+theorem el_lt (o : Option Nat) (st : InterestSt) {q : Nat} {r : Rd} {buf : Bytes} {p : Nat}
+    {rest : Bytes} (h : At r buf p) (hb : buf.drop p = optB o (encNatField 12) ++ rest)
+    (hv : ∀ x, o = some x → x < 2 ^ 64) (hq : q ≤ 7) (h0 : st.v.lt = none) :
+    ∃ r' q', q' ≤ 8 ∧ At r' buf (p + (optB o (encNatField 12)).length)
+      ∧ buf.drop (p + (optB o (encNatField 12)).length) = rest ∧
+      Reach buf p (st, q) r (p + (optB o (encNatField 12)).length) ({ st with v := { st.v with lt := o } }, q') r' := by
+  cases o with
+  | none =>
+    refine ⟨r, q, by omega, by simpa [optB] using h, by simpa [optB] using hb, ?_⟩
+    rw [eta_lt st h0]; simp only [optB]; exact Reach.refl _ _ _ _
+  | some x =>
+    have hx := hv x rfl
+    have hn := natLen_le x
+    have hb1 : buf.drop p = encTL 12 ++ (encTL (natLen x) ++ (be (natLen x) x ++ rest)) := by
+      rw [hb]; simp [optB, encNatField, encTL_small (natLen x) (by omega), List.append_assoc]
+    obtain ⟨r2, a2, l2, d2, hstep⟩ := step_reach R (st := st) h hb1 (by omega) (by omega) (by decide : interestIdx 12 = some 7) hq (by omega)
+    obtain ⟨r3, e3, a3, d3⟩ := readNat_at R r2 buf _ (natLen x) x 64 rest a2 d2 (lt_pow_natLen x hx) (pow_natLen_le x)
+    have hL : (optB (some x) (encNatField 12)).length = tlLen 12 + tlLen (natLen x) + natLen x := by
+      simp [optB, encNatField, encTL_length, tlLen_small (natLen x) (by omega)]; omega
+    rw [hL, show p + (tlLen 12 + tlLen (natLen x) + natLen x) = p + tlLen 12 + tlLen (natLen x) + natLen x by omega]
+    refine ⟨r3, 8, by omega, a3, d3, ?_⟩
+    apply hstep _ r3 _ _ a3.2.2 (by omega)
+    rw [absFold_head _ _ _ _ _ (by omega)]
+    simp [interestHandle, e3, Nat.mod_eq_of_lt hx]
+
+/-- HopLimit (slot 8): `Skip(1)` then `Range(Pos()-1, Pos())[0][0]` -/
+theorem el_hl (o : Option Nat) (st : InterestSt) {q : Nat} {r : Rd} {buf : Bytes} {p : Nat}
+    {rest : Bytes} (h : At r buf p) (hb : buf.drop p = optB o encHopLimit ++ rest)
+    (hv : ∀ x, o = some x → x < 256) (hq : q ≤ 8) (h0 : st.v.hl = none) :
+    ∃ r' q', q' ≤ 9 ∧ At r' buf (p + (optB o encHopLimit).length)
+      ∧ buf.drop (p + (optB o encHopLimit).length) = rest ∧
+      Reach buf p (st, q) r (p + (optB o encHopLimit).length) ({ st with v := { st.v with hl := o } }, q') r' := by
+  cases o with
+  | none =>
+    refine ⟨r, q, by omega, by simpa [optB] using h, by simpa [optB] using hb, ?_⟩
+    rw [eta_hl st h0]; simp only [optB]; exact Reach.refl _ _ _ _
+  | some x =>
+    have hx := hv x rfl
+    have hb1 : buf.drop p = encTL 34 ++ (encTL 1 ++ ([x % 256] ++ rest)) := by
+      rw [hb]; simp [optB, encHopLimit, encTL_small]
+    obtain ⟨r2, a2, l2, d2, hstep⟩ := step_reach R (st := st) h hb1 (by omega) (by omega) (by decide : interestIdx 34 = some 8) hq (by omega)
+    obtain ⟨hle, htk, d3⟩ := drop_append_len a2.2.2 d2
+    simp only [List.length_cons, List.length_nil] at hle htk d3
+    obtain ⟨r3, e3, a3⟩ := R.skip_ok r2 buf _ 1 a2 l2 hle
+    have hL : (optB (some x) encHopLimit).length = tlLen 34 + tlLen 1 + 1 := by
+      simp [optB, encHopLimit, tlLen_small]
+    rw [hL, show p + (tlLen 34 + tlLen 1 + 1) = p + tlLen 34 + tlLen 1 + 1 by omega]
+    refine ⟨r3, 9, by omega, a3, d3, ?_⟩
+    apply hstep _ r3 _ _ a3.2.2 (by omega)
+    rw [absFold_head _ _ _ _ _ (by omega)]
+    have hr : r3.range (r3.pos - 1) r3.pos = [x % 256] := by
+      rw [R.pos_eq r3 _ _ a3, R.range_eq r3 buf _ _ _ a3 (by omega) a3.2.2]
+      rw [show p + tlLen 34 + tlLen 1 + 1 - 1 = p + tlLen 34 + tlLen 1 by omega,
+        show p + tlLen 34 + tlLen 1 + 1 - (p + tlLen 34 + tlLen 1) = 1 by omega]
+      simpa using htk
+    simp [interestHandle, e3, hr, Nat.mod_eq_of_lt hx]
+
+end
 end Ndn.C03
